@@ -120,6 +120,16 @@ def entryProg (d : Docs) (kind : Kind) (f : Fmt) (j : Json) : Except String (Pro
   | "api" => return apiWrite d kind f g ow va
   | e => throw s!"entry {e}"
 
+def entryPhases (d : Docs) (kind : Kind) (f : Fmt) (j : Json) (kv : KV) : Except String Phases := do
+  let g ← gOfJson (← j.getObjVal? "g")
+  let ow := getBoolD j "overwrite" false
+  let va := getBoolD j "validate" true
+  match (← (← j.getObjVal? "entry").getStr?) with
+  | "write_arrays" => return phases d kind f g ow va kv
+  | "write_dicts" => return phases d kind f g false va kv
+  | "api" => return apiPhases d kind f g ow va kv
+  | e => throw s!"entry {e}"
+
 /-- states after the first k mutations, k = 0 … n -/
 def prefixStates (kv : KV) : List Op → List KV
   | [] => [kv]
@@ -134,11 +144,14 @@ def handle (j : Json) : Except String Json := do
   | "trace" =>
     let p ← entryProg d kind f j
     let r := p pre
+    let ph ← entryPhases d kind f j pre
     let sts := prefixStates pre r.ops
     let base := [("ops", Json.arr (r.ops.map opJson).toArray), ("outcome", Json.str (outcomeStr r.val)),
                  ("final", kvJson (run pre r.ops)),
                  ("rec", Json.arr (sts.map (fun s => Json.bool (recognised f s))).toArray),
-                 ("check", Json.bool (checkForGeff kind pre))]
+                 ("check", Json.bool (checkForGeff kind pre)),
+                 ("phases", Json.arr #[ph.D.length, ph.W.length, ph.C.length, ph.X.length]),
+                 ("committed", Json.bool ph.committed)]
     let more := if getBoolD j "states" false then [("states", Json.arr (sts.map kvJson).toArray)] else []
     return Json.mkObj (base ++ more)
   | "history" =>
